@@ -37,8 +37,9 @@ def encode(data, coding):
     raise ValueError(coding)
 
 
-def ce_header(coding):
-    return "gzip" if coding == "gzip" else "deflate"
+def ce_header(coding, spell=None):
+    v = "gzip" if coding == "gzip" else "deflate"
+    return v.upper() if spell == "upper" else v.title() if spell == "title" else v
 
 
 def pieces(data, k):
@@ -60,7 +61,7 @@ async def _run_codec(case, obs):
 
     async def handler(request):
         if down:
-            r = web.StreamResponse(headers={"Content-Encoding": ce_header(case["coding"])})
+            r = web.StreamResponse(headers={"Content-Encoding": ce_header(case["coding"], case.get("spell"))})
             await r.prepare(request)
             for p in parts:
                 await r.write(p)
@@ -92,7 +93,7 @@ async def _run_codec(case, obs):
                         for p in parts:
                             yield p
                     async with s.post("http://example.test/c", data=gen(),
-                                      headers={"Content-Encoding": ce_header(case["coding"])}) as resp:
+                                      headers={"Content-Encoding": ce_header(case["coding"], case.get("spell"))}) as resp:
                         cli["status"] = resp.status
                         cli["text"] = await resp.text()
             except BaseException as e:  # noqa
@@ -463,6 +464,8 @@ def gen_cases(ctx):
                 segs = [["whole"], ["chunkcuts", "size"], ["chunkcuts", "all"], ["k", 1 if n < 1000 else 7], ["k", 64]]
                 for seg in segs:
                     out.append({"kind": "codec", "dir": direction, "coding": coding, "n": n, "parts": parts, "seg": seg})
+            for spell in ("upper", "title"):
+                out.append({"kind": "codec", "dir": direction, "coding": coding, "n": 300, "parts": 2, "seg": ["chunkcuts", "size"], "spell": spell})
             for _ in range(4 if ctx.quick else 60):
                 n = rng.choice([1, 40, 300, 2000, 70000])
                 seg = rng.choice([["rand", rng.randrange(1 << 30), rng.choice([8, 64, 700])], ["chunkcuts", rng.choice(["size", "all"])],
